@@ -27,6 +27,13 @@ STRENGTHENED = {
  'C12_4': 'missed at first (Halton with 1, 3 and 4 parameters only) -> prime-base table for every dimension 1..40 (thorough 1..200), generator with 5..8 parameters',
  'C14_4': 'missed at first (tolerances assumed strictly positive) -> tolerance 0 included',
  'C16_4': 'inconclusive at first (`np.asarray(.., dtype=float)` of proxies unsupported; list vectors only) -> numpy shim keeps proxies and the aliasing of `asarray`; ndarray design vectors, vector-not-modified and same-design-same-objectives checks',
+ 'C01_5': 'FALSE ALARM of the machinery at first (the `float` shim was passed to numpy as `dtype=float` -> TypeError reported as a violation): shims for the names float/int became numpy-compatible type objects; then caught properly by the new `containers-*` configurations (tuple / ndarray arguments used in more than one comparison, arguments-not-modified)',
+ 'C02_5': 'strengthened before its first run (same idea as C01_5): signed costs stored as numpy arrays, real comparator instead of its summary, stored-costs-not-modified',
+ 'C03_5': 'strengthened before its first run: crowding on numpy-array costs, stored-costs-not-modified',
+ 'C04_5': 'missed at first (every archive got its own comparator) -> archives built with the shared default comparator after another archive used it with a different number of objectives',
+ 'C05_5': 'inconclusive at first (`np.asarray(costs, dtype=float)` of proxies) -> numpy shim in artap.individual (asarray/round keep proxies and aliasing); objective returning a numpy array',
+ 'C09_5': 'missed at first (generate() was only run with stubbed operators on list vectors) -> `variation-contract-*`: real SBX / PM on list and ndarray vectors must not write into or share memory with their arguments; generate() with ndarray parents',
+ 'C10_5': 'missed at first (updates between two syncs re-bound every attribute) -> histories with in-place updates (`imut`)',
  'C20_4': 'inconclusive at first (`hash(point)` inside the library hit the int-only builtin) -> shim calls the real `__hash__`; the real CPython collision hash(-1.0) == hash(-2.0) as model-selection hint so that the counterexample replays',
 }
 print('| seed | change (abridged) | needs | verdict of the check(s) on the patched tree | note |')
